@@ -90,8 +90,7 @@ class Summaries:
         name = f.name
         if name.startswith("{closure@"):
             fn = ex.find_closure(name)
-            cargs = [f] + list(args)
-            # closures taking self by ref/value: the env is never inspected (captures unsupported)
+            cargs = ex.closure_self(fn, [f] + list(args))
         else:
             fn = ex.resolve(name, args)
             cargs = list(args)
@@ -104,6 +103,18 @@ class Summaries:
             # FnOnce-style closures receive (env, args...) ; a closure without captures still has the env param
             raise Unsupported("closure arity %s: %d vs %d" % (fn.name, len(fn.params), len(cargs)))
         ex.push_frame(st, fn, cargs, None, None)
+        outs = ex.run_state(st)
+        res = []
+        for o in outs:
+            if o.kind == "return":
+                res.append((o.st, o.value))
+            else:
+                ex._side.append(o)
+        return res
+
+    def run_fn(self, st, fn, args):
+        ex = self.ex
+        ex.push_frame(st, fn, list(args), None, None)
         outs = ex.run_state(st)
         res = []
         for o in outs:
@@ -155,6 +166,35 @@ class Summaries:
         if re.match(r"^<(?:std::option::)?Option<.*> as FromResidual<(?:std::option::)?Option<.*>>>::from_residual$", n):
             return self.mk_enum(strip_ty(name[1:name.index(" as FromResidual")]), "None")
 
+        # ---------- checked integer conversions
+        m = re.match(r"^<(i8|i16|i32|i64|i128|isize|u8|u16|u32|u64|u128|usize) as TryFrom<(i8|i16|i32|i64|i128|isize|u8|u16|u32|u64|u128|usize)>>::try_from$", n)
+        if m:
+            a = A[0]
+            db, ds = INT_TYPES[m.group(1)]
+            lo = -(1 << (db - 1)) if ds else 0
+            hi = (1 << (db - 1)) - 1 if ds else (1 << db) - 1
+            w = a.bits
+            conds = []
+            # value range of the source as signed/unsigned integer
+            src_lo = -(1 << (w - 1)) if a.signed else 0
+            src_hi = (1 << (w - 1)) - 1 if a.signed else (1 << w) - 1
+            if lo > src_lo:
+                conds.append((a.t >= z3.BitVecVal(lo, w)) if a.signed else z3.UGE(a.t, z3.BitVecVal(lo, w)))
+            if hi < src_hi:
+                conds.append((a.t <= z3.BitVecVal(hi, w)) if a.signed else z3.ULE(a.t, z3.BitVecVal(hi, w)))
+            fits = z3.And(*conds) if conds else z3.BoolVal(True)
+            if db <= w:
+                val = Int(z3.Extract(db - 1, 0, a.t), db, ds)
+            else:
+                val = Int((z3.SignExt if a.signed else z3.ZeroExt)(db - w, a.t), db, ds)
+            c = z3.simplify(fits)
+            can_ok, can_err = ex.feasible(st, c), ex.feasible(st, z3.Not(c))
+            rty = "Result<%s, std::num::TryFromIntError>" % m.group(1)
+            if can_ok and can_err:
+                raise_fork([(c, None, "fits"), (z3.Not(c), None, "out of range")])
+            if can_ok:
+                return self.mk_enum(rty, "Ok", val)
+            return self.mk_enum(rty, "Err", Opaque("TryFromIntError", z3.Const("TryFromIntError", opaque_sort("TryFromIntError"))))
         # ---------- conversions that are the identity on the model
         if re.match(r"^<.* as (Into|From)<.*>>::(into|from)$", n) and len(A) == 1:
             m2 = re.match(r"^<(.*) as From<(.*)>>::from$", n)
@@ -196,6 +236,7 @@ class Summaries:
         m = re.match(r"^<(.*) as Default>::default$", n)
         if m:
             return self.default_of(st, m.group(1))
+        # unknown struct-like aggregates of external crates are built by the executor as opaque records
 
         # ---------- Option / Result combinators
         m = re.match(r"^(?:std::option::)?Option::(\w+)$", n) or re.match(r"^(?:std::result::)?Result::(\w+)$", n)
@@ -244,6 +285,18 @@ class Summaries:
         if r is not None:
             return r
 
+        # ---------- rpds persistent vector (same model as Vec, every operation returns a copy)
+        m = re.match(r"^(?:rpds::)?Vector::(\w+)$", n)
+        if m:
+            r = self.pvec(st, m.group(1), A, name)
+            if r is not None:
+                return r
+        if re.match(r"^<(?:rpds::)?Vector<.*> as Default>::default$", n):
+            return Vec("cell::Cell", None, [])
+        # ---------- rpds persistent map: opaque, results over-approximated (any value)
+        m = re.match(r"^(?:rpds::)?RedBlackTreeMap::(\w+)$", n)
+        if m:
+            return self.pmap(st, m.group(1), A, name)
         # ---------- Rc
         if n in ("Rc::new", "std::rc::Rc::new", "Box::new", "std::boxed::Box::new"):
             return Ref(Box(A[0], name=ex.fresh_name("heap")))
@@ -263,6 +316,22 @@ class Summaries:
                 or n.startswith("core::fmt::Arguments::") or n.startswith("std::fmt::Arguments::"):
             return self.opaque_fn(n.replace(":", "_"), A, "std::string::String" if n.endswith("format") else "fmt_arg")
 
+        # ---------- pure, non-panicking str/String observers and builders: uninterpreted
+        m = re.match(r"^core::str::(?:<impl str>::)?(len|as_bytes|is_empty|chars|char_indices|as_ptr|trim|bytes|to_owned|to_string)$", n)
+        if m:
+            rt = {"len": "usize", "is_empty": "bool", "as_bytes": "&[u8]", "chars": "Chars", "char_indices": "CharIndices"}.get(m.group(1), "&str")
+            return self.opaque_fn("str_" + m.group(1), A, rt)
+        m = re.match(r"^(?:std::string::)?String::(new|with_capacity|push_str|push|clear|len|as_str|is_empty)$", n)
+        if m:
+            meth = m.group(1)
+            if meth in ("new", "with_capacity"):
+                return Opaque("String", z3.Const(ex.fresh_name("string"), opaque_sort("String")))
+            if meth in ("push_str", "push", "clear"):
+                # in-place edit of an opaque buffer: the buffer becomes a fresh opaque string
+                r0 = A[0]
+                ex.set_at(st, r0.box, r0.path, Opaque("String", z3.Const(ex.fresh_name("string"), opaque_sort("String"))))
+                return Unit()
+            return self.opaque_fn("String_" + meth, A, {"len": "usize", "is_empty": "bool"}.get(meth, "&str"))
         # ---------- string-ish opaque operations (uninterpreted, functional)
         for pfx, rty in (("ArcStr::", "ArcStr"), ("Substr::", "Substr"), ("String::", "String")):
             if n.startswith(pfx) or n.startswith("arcstr::" + pfx):
@@ -333,6 +402,11 @@ class Summaries:
             return Opaque(strip_ty(ty), z3.Const("pvec_empty", opaque_sort(strip_ty(ty))))
         if k == "opaque":
             return Opaque(strip_ty(ty), z3.Const("default!" + strip_ty(ty)[:40], opaque_sort(strip_ty(ty))))
+        if k in ("struct", "enum"):
+            fn = ex.resolve("<%s as Default>::default" % strip_ty(ty), [])
+            if fn is not None:
+                alts = self.run_fn(st, fn, [])
+                return Multi(alts)
         raise Unsupported("Default for " + ty)
 
     def opt_res(self, st, fr, n, name, meth, A):
@@ -541,6 +615,123 @@ class Summaries:
             return ex.int_binop(st, m.group(2), A[0], A[1])
         return None
 
+    def pvec(self, st, meth, A, name):
+        ex = self.ex
+        if meth == "new":
+            return Vec("cell::Cell", None, [])
+        recv = A[0]
+        v = self.deref_val(st, recv) if isinstance(recv, Ref) else recv
+        if not isinstance(v, Vec):
+            raise Unsupported("rpds::Vector receiver %r" % (v,))
+        if meth == "len":
+            return Int(v.len_term(), 64, False)
+        if meth == "is_empty":
+            return Bool(v.len_term() == 0)
+        if meth == "push_back":
+            nv = clone_val(v)
+            nv.items.append(A[1])
+            return nv
+        if meth == "push_back_mut":
+            v.items.append(A[1])
+            return Unit()
+        if meth in ("last", "first") and meth == "last":
+            return self.vec_method(st, None, "Vec::last", "Vec::last", [recv])
+        if meth == "get":
+            return self.vec_method(st, None, "Vec::get", "Vec::get", [recv, A[1]])
+        if meth in ("drop_last", "drop_last_mut"):
+            tgt = v if meth.endswith("_mut") else clone_val(v)
+            if not tgt.items:
+                if tgt.prefix is None:
+                    return self.option("Vector") if meth == "drop_last" else Bool(z3.BoolVal(False))
+                ln = tgt.prefix[1]
+                if ex.feasible(st, ln == 0) and ex.feasible(st, ln != 0):
+                    raise_fork([(ln == 0, None, "empty"), (ln != 0, None, "non-empty")])
+                if not ex.feasible(st, ln != 0):
+                    return self.option("Vector") if meth == "drop_last" else Bool(z3.BoolVal(False))
+                tgt.materialize(ex.tc, 1)
+            tgt.items.pop()
+            return self.option("Vector", tgt) if meth == "drop_last" else Bool(z3.BoolVal(True))
+        if meth == "set":
+            raise Unsupported("rpds::Vector::set")
+        return None
+
+    def pmap(self, st, meth, A, name):
+        ex = self.ex
+        from e2.symex import veq
+        ty = "rpds::RedBlackTreeMap<cell::Cell, cell::Cell>"
+        if meth == "new":
+            return PMap(ty, None, [])
+        recv = A[0]
+        m0 = self.deref_val(st, recv) if isinstance(recv, Ref) else recv
+        if isinstance(m0, Opaque):
+            m0 = PMap(ty, m0.term, [])
+        if not isinstance(m0, PMap):
+            raise Unsupported("RedBlackTreeMap receiver %r" % (m0,))
+        key = A[1] if len(A) > 1 else None
+        if isinstance(key, Ref) and meth in ("get", "contains_key", "remove", "remove_mut"):
+            key = self.deref_val(st, key)
+
+        def drop_key(entries):
+            out = []
+            for (k, v) in entries:
+                e = veq(ex, k, key)
+                if ex.entailed(st, e):
+                    continue
+                if ex.feasible(st, e):
+                    raise Unsupported("map key equality undetermined")
+                out.append((k, v))
+            return out
+        if meth in ("insert", "insert_mut"):
+            tgt = m0 if meth == "insert_mut" else clone_val(m0)
+            tgt.entries = drop_key(tgt.entries) + [(key, A[2])]
+            return Unit() if meth == "insert_mut" else tgt
+        if meth in ("remove", "remove_mut"):
+            tgt = m0 if meth == "remove_mut" else clone_val(m0)
+            n0 = len(tgt.entries)
+            tgt.entries = drop_key(tgt.entries)
+            if tgt.base is not None:
+                # the base may or may not have held the key: it becomes a different opaque map
+                tgt.base = z3.Const(ex.fresh_name("pmap"), opaque_sort("rpds::RedBlackTreeMap"))
+            if meth == "remove":
+                return tgt
+            return Bool(z3.BoolVal(True)) if len(tgt.entries) < n0 and tgt.base is None else Bool(z3.Bool(ex.fresh_name("removed")))
+        if meth == "size":
+            if m0.base is None:
+                return Int(z3.BitVecVal(len(m0.entries), 64), 64, False)
+            return Int(z3.BitVec(ex.fresh_name("pmap_size"), 64), 64, False)
+        if meth in ("get", "contains_key"):
+            for (k, v) in reversed(m0.entries):
+                e = veq(ex, k, key)
+                if ex.entailed(st, e):
+                    if meth == "contains_key":
+                        return Bool(z3.BoolVal(True))
+                    # reference to the stored value
+                    return self.mk_enum("Option<&cell::Cell>", "Some", Ref(Box(v, name=ex.fresh_name("pmap_entry"))))
+                if ex.feasible(st, e):
+                    raise Unsupported("map key equality undetermined")
+            if m0.base is None:
+                return Bool(z3.BoolVal(False)) if meth == "contains_key" else self.option("&cell::Cell")
+            if meth == "contains_key":
+                return Bool(z3.Bool(ex.fresh_name("pmap_has")))
+            # lookup in the opaque base: presence and value are functions of (base, key identity), so that two runs
+            # of a relational lemma see the same map content
+            ident = cell_ident(ex, key)
+            base_id = str(m0.base)
+            tagn = "%s[%s]" % (base_id, ident) if ident is not None else ex.fresh_name("pmap_val")
+            has = z3.Bool("has!" + tagn)
+            ch, cn = ex.feasible(st, has), ex.feasible(st, z3.Not(has))
+            if ch and cn:
+                raise_fork([(has, None, "key present"), (z3.Not(has), None, "key absent")])
+            if not ch:
+                return self.option("&cell::Cell")
+            cellv = mk_sym(ex.tc, "cell::Cell", "val!" + tagn)
+            return self.mk_enum("Option<&cell::Cell>", "Some", Ref(Box(cellv, name="cell!" + tagn)))
+        raise Unsupported("RedBlackTreeMap::" + meth)
+
+    def two_way(self, st, v1, v2):
+        s2 = st.fork()
+        return [(st, v1), (s2, v2)]
+
     def tyname(self, a):
         return ("i" if a.signed else "u") + str(a.bits)
 
@@ -588,6 +779,8 @@ class Summaries:
                     raise Unsupported("index into slice view")
                 idx = A[1]
                 self.bounds_check(st, z3.ULT(idx.t, v.len_term()), "index out of bounds in " + n)
+                if v.slots is not None and not v.items:
+                    return Ref(r.box, r.path + (ex.slot_step(st, v, idx.t),), idxm.group(4) == "index_mut")
                 j = ex.vec_index(st, v, idx.t)
                 return Ref(r.box, r.path + (("e", j + v.low),), idxm.group(4) == "index_mut")
             if "RangeFrom" in ity:
@@ -647,6 +840,8 @@ class Summaries:
                 raise_fork([(inb, None, "in bounds"), (z3.Not(inb), None, "out of bounds")])
             if not ci:
                 return self.option("&" + v.elem_ty)
+            if v.slots is not None and not v.items:
+                return self.option("&" + v.elem_ty, Ref(r.box, r.path + (ex.slot_step(st, v, idx.t),), meth == "get_mut"))
             j = ex.vec_index(st, v, idx.t)
             return self.option("&" + v.elem_ty, Ref(r.box, r.path + (("e", j + v.low),), meth == "get_mut"))
         if meth == "swap":
@@ -786,6 +981,25 @@ class Summaries:
             rg.fields[1] = ne
             return self.option(m.group(1), ne)
         return None
+
+
+def cell_ident(ex, key):
+    """identity of a key cell for deterministic naming: tags are transparent for map keys (Ord uses value())"""
+    k = key
+    for _ in range(3):
+        if isinstance(k, Ref):
+            k = ex.get_at(None, k.box, k.path)
+            continue
+        if isinstance(k, Enum) and k.variant == "WithTag" and k.payload is not None and 0 in k.payload.fields:
+            rc = k.payload.fields[0]
+            wt = ex.get_at(None, rc.box, rc.path)
+            if isinstance(wt, Struct) and 1 in wt.fields:
+                k = wt.fields[1]
+                continue
+        break
+    if isinstance(k, Enum) and k.origin:
+        return k.origin
+    return None
 
 
 def whole_view(r):
